@@ -28,7 +28,7 @@ ASSUMPTIONS = ["forcing.module is always given (the property does not say what a
                "the release file has no header line (version 1 always passes the column names)"]
 TIERS = {"quick": dict(runs=220, budget_s=50, shrink=80),
          "thorough": dict(runs=15000, budget_s=900, shrink=150)}
-REQUIRED_PROBES = ["v1", "toml", "grid_omitted", "wildcard", "sections_omitted", "diffusion", "continuous", "leftover_frequency", "user_gridforce_module", "grid_in_first_file_only", "native_yaml_timestamps", "times_with_seconds"]
+REQUIRED_PROBES = ["v1", "toml", "grid_omitted", "wildcard", "sections_omitted", "diffusion", "continuous", "leftover_frequency", "user_gridforce_module", "grid_in_first_file_only", "native_yaml_timestamps", "times_with_seconds", "grid_in_grid_file_only"]
 
 PROFILE = gen.profile(
     nsteps=(2, 24), p_reversed=0.0, p_land=0.4, p_subgrid=0.35, N=(1, 4), p_vinfo=0.0, cfl=(0.05, 0.6),
@@ -57,6 +57,9 @@ def generate(seed: int, tier: str, idx: int) -> dict:
     sc["plan"] = {"omit_ibm": s.chance(0.5), "alt_module": s.chance(0.4), "native_times": s.chance(0.5)}
     if len(world.frame_partition(sc)) > 1 and s.chance(0.6):
         sc["frames"]["grid_in_first_only"] = True     # "the first forcing file" is then the only possible grid file
+    elif s.chance(0.25):
+        # the grid exists in the grid file only: every spelling has to use the grid file it is given
+        sc["frames"]["no_grid_in_forcing"] = True
     if not sc["release"].get("continuous") and s.chance(0.5):
         # a discrete release whose configuration still carries a release frequency (ignored: not continuous)
         sc["plan"]["leftover_freq_steps"] = s.randint(1, 4)
@@ -247,8 +250,10 @@ def execute(sc) -> Result:
             cfg["gridforce"]["input_file"] = str(d / "forcing_*.nc") if sc["time"]["nsteps"] % 2 else cfg["gridforce"]["input_file"]
         return cfg
 
-    run, got = run_variant(res, sc, "v1_no_gridfile", v1=True, v1_edit=v1_no_gridfile)
-    judge("C18.v2_vs_v1", "legacy version-1 YAML without gridfile", run, got)
+    separate = bool(sc["frames"].get("no_grid_in_forcing"))
+    if not separate:
+        run, got = run_variant(res, sc, "v1_no_gridfile", v1=True, v1_edit=v1_no_gridfile)
+        judge("C18.v2_vs_v1", "legacy version-1 YAML without gridfile", run, got)
 
     def v1_files_section(cfg, d):
         # the legacy format also accepts the file names in the files section
@@ -278,10 +283,13 @@ def execute(sc) -> Result:
     for sp in ("toml2",):
         run, got = run_variant(res, sc, "grid_module_omitted_toml", edit=omit_grid_module, spelling=sp)
         judge("C18.default_grid", "grid section without module (TOML)", run, got)
-    run, got = run_variant(res, sc, "grid_omitted", edit=omit_grid)
-    judge("C18.default_grid", "grid file and module omitted", run, got)
-    res.probes["grid_omitted"] += 1
-    if nfiles == 1:
+    if not separate:
+        run, got = run_variant(res, sc, "grid_omitted", edit=omit_grid)
+        judge("C18.default_grid", "grid file and module omitted", run, got)
+        res.probes["grid_omitted"] += 1
+    else:
+        res.probes["grid_in_grid_file_only"] += 1
+    if nfiles == 1 and not separate:
         def wildcard(cfg, d):
             omit_grid(cfg, d)
             cfg["forcing"]["filename"] = str(d / "forcing_*.nc")
